@@ -48,10 +48,10 @@ type overlapOpts struct {
 	BKinds      []string // kinds of operation B may be: close, close-ancestor, pclose, cancel, same-get, get, create
 	AKinds      []string // get, create, create-gatectx
 	GateKind    []int
-	ExtraScopes int                        // larger scope trees
-	ExtraWarm   int                        // more warm-up resolutions (so that scopes own instances)
-	Prep        func(*kit.World, *rapid.T) // prepare the world before Build (fault plans)
-	Points      []string                   // GateInternal: park at the n-th passage of a point whose name starts with one of these (nil = any point)
+	ExtraScopes int                         // larger scope trees
+	ExtraWarm   int                         // more warm-up resolutions (so that scopes own instances)
+	Prep        func(*kit.World, *rapid.T)  // prepare the world before Build (fault plans)
+	Points      []string                    // GateInternal: park at the n-th passage of a point whose name starts with one of these (nil = any point)
 	MutateCfg   func(*rapid.T, *kit.Config) // additions to the generated configuration
 }
 
